@@ -137,8 +137,9 @@ PROPS = {
     level_text="Lean 4 proof, for every execution of model M8 (cancel requests at any point, concurrent sends, spurious polls): a stream whose keep-running flag was cleared is never left parked and un-notified once the cancel's wake call has finished, it ends at its first empty consume, yields only buffered events meanwhile, and a cancel touches no other stream's flag / waker / state; counterexample theorem for `untargeted streams keep being woken` on Uni channels (recorded finding). Tied to the code by step-level replay; the scheduler decides `parked forever`.",
     level_note="Theorem about model M8 under the hypothesis that different streams are driven by tasks with different wakers (TokRun); stream-id recycling is C10's bookkeeping theorem. Known finding: ending a proper subset of a Uni channel's streams starves the others.",
     lean=["C07"],
-    scenarios=[dict(bin="uni", args=[f"kind={k}", "sub=cancel"], runs=500, model_name="M8 Wake", kinds=["cancelled_stream_never_ended", "untargeted_stream_starved", "no_progress", "panic", "invented", "duplicate"]) for k in UNI_KINDS],
-    rule=UNI_RULE + "; cancel requests for a random subset of the streams are injected after a random number of scheduler turns",
+    scenarios=[dict(bin="uni", args=[f"kind={k}", "sub=cancel"], runs=500, model_name="M8 Wake", kinds=["cancelled_stream_never_ended", "untargeted_stream_starved", "no_progress", "panic", "invented", "duplicate"]) for k in UNI_KINDS] +
+              [dict(bin="multi", args=[f"kind={k}", "sub=cancelall"], runs=400, model=False, model_name="(oracle only: cancel_all_streams racing with the removal of a listener, Multi channels)", kinds=["cancelled_stream_never_ended", "no_progress", "panic"]) for k in MULTI_KINDS],
+    rule=UNI_RULE + "; cancel requests for a random subset of the streams are injected after a random number of scheduler turns; `multi sub=cancelall`: 2-3 listeners of a Multi channel (MAX_STREAMS = 4) driven by tasks polled only while notified, one thread removing a listener, one calling cancel_all_streams(), a producer sending 0-2 events",
     trusted_base=TB_COMMON,
     assumptions=["one task (waker) per stream"],
  ),
@@ -201,8 +202,9 @@ PROPS = {
     level_note="Model M11 covers closes with an unbounded timeout; tokio / futures contracts trusted (which orders occur is observed, the model allows every order they could choose). Known finding D6.",
     lean=["C06"],
     scenarios=[dict(bin="exec", args=["sub=close"], runs=200, thorough_scale=40, model_name="M11 Exec", kinds=["close_before_processed", "panic"]), dict(bin="exec", args=["sub=close", "rt=multi"], runs=12, single=True, thorough_scale=10, model_name="M11 Exec", kinds=["close_before_processed", "panic"]),
-               dict(bin="exec", args=["sub=mclose"], runs=80, single=True, thorough_scale=10, model_name="M11 Exec (one event machine per listener)", kinds=["close_before_processed", "close_callback_count", "panic"])],
-    rule="random executor kind, limit 1-4, 0-6 events (sync / future / slow / failing items), close() called 1 ms after the sends (events buffered and / or in flight); `mclose`: the five queue-per-listener Multi kinds with 2-3 listeners (sequential futures executors) whose items take 0 / 3 / 10 ms, 1-12 events; DISTINCT by event log; NON-TRIVIAL if more than one event",
+               dict(bin="exec", args=["sub=mclose"], runs=80, single=True, thorough_scale=10, model_name="M11 Exec (one event machine per listener)", kinds=["close_before_processed", "close_callback_count", "panic"]),
+               dict(bin="exec", args=["sub=reclose"], runs=60, model=False, single=True, thorough_scale=10, model_name="(oracle only: the end signal was given before the graceful close)", kinds=["close_before_processed", "close_callback_count", "close_failed", "panic"])],
+    rule="random executor kind, limit 1-4, 0-6 events (sync / future / slow / failing items), close() called 1 ms after the sends (events buffered and / or in flight); `mclose`: the five queue-per-listener Multi kinds with 2-3 listeners (sequential futures executors) whose items take 0 / 3 / 10 ms, 1-12 events; `reclose`: sequential futures executor with 1-6 slow events and an unbounded close() issued after a bounded close that expired / after cancel_all_streams() / while another close() is waiting; DISTINCT by event log; NON-TRIVIAL if more than one event",
     trusted_base=TB_COMMON + ["tokio and futures 0.3 contracts as in C11"],
     assumptions=["unbounded close timeout"],
  ),
